@@ -67,7 +67,9 @@ func checkC08(r *Run) {
 func checkC11(r *Run) {
 	rng := rand.New(rand.NewSource(r.Seed))
 	runServeD1(r, newServeGen(r, rng), "C11", pick(r, 5*time.Minute, 40*time.Minute))
+	serveViaCopy.Store(true) // the hostname tables are replayed with every handler working on a CloneWith copy
 	runServeD1(r, newServeGenHost(r, rng), "C11", pick(r, 5*time.Minute, 40*time.Minute))
+	serveViaCopy.Store(false)
 	runServeD2(r, rng, "C11")
 	r.assumption("Allow is compared as a set; for 405 with automatic OPTIONS enabled, OPTIONS may additionally be listed")
 }
